@@ -88,24 +88,14 @@ theorem codeValid_factors (k : Spec.CodeKind) (lens : Array Nat) :
     alphabet; `max_code_len`). -/
 theorem source_incomplete_check_is_spec_rule (total bt maxLen : Nat) :
     tree_incomplete_rejects total bt maxLen = !specAccepts (total == 65536) (bt == 2) maxLen := by
-  unfold tree_incomplete_rejects specAccepts HUFFLEN_TABLE
-  by_cases ht : total = 65536
-  · subst ht; simp
-  · have h1 : ((total : Int) != 65536) = true := by
-      simp only [bne_iff_ne, ne_eq]; intro h; exact ht (by omega)
-    have h2 : (total == 65536) = false := by simpa using ht
-    rw [h1, h2]
-    by_cases hb : bt = 2
-    · subst hb; simp
-    · have h3 : ((bt : Int) == 2) = false := by
-        simp only [beq_eq_false_iff_ne, ne_eq]; intro h; exact hb (by omega)
-      have h4 : (bt == 2) = false := by simpa using hb
-      rw [h3, h4]
-      by_cases hm : maxLen ≤ 1
-      · have : ¬ ((maxLen : Int) > 1) := by omega
-        simp [hm, this]
-      · have : ((maxLen : Int) > 1) := by omega
-        simp [hm, this]
+  -- case analysis on the three facts the rule reads, so that the proof does not depend on how the
+  -- source spells the condition (a local for "complete", `1 << 16` for 65536, `>=`/`>` …)
+  unfold tree_incomplete_rejects specAccepts
+  have e : G.shl (.u 32) 1 16 = 65536 := by decide
+  rw [Bool.eq_iff_iff]
+  simp only [Id.run, pure, e, HUFFLEN_TABLE, Bool.and_eq_true, Bool.or_eq_true, Bool.not_eq_true', ← Bool.not_eq_true,
+    beq_iff_eq, bne_iff_ne, decide_eq_true_eq, ne_eq]
+  omega
 
 /-- The over-subscription check: the running Kraft remainder went negative. -/
 theorem source_oversubscription_check (left : Int) : tree_oversubscribed left = decide (left < 0) := rfl
